@@ -136,7 +136,7 @@ def run_standin(s, tier, seed):
 
 
 def write_replay(pid, obligation, payload):
-    d = os.path.join(VERIF, "replays")
+    d = os.environ.get("VERIF_REPLAY_DIR") or os.path.join(VERIF, "replays")
     os.makedirs(d, exist_ok=True)
     safe = "".join(ch if ch.isalnum() or ch in "-_." else "_" for ch in obligation)[:150]
     path = os.path.join(d, "%s-%s.json" % (pid, safe))
@@ -554,7 +554,7 @@ def write_evidence(pid, tier, seed, cs, results, obligations, n_ob, n_dis, stand
         "wall_s": round(wall, 2),
         "violations": len(violations),
     }
-    d = os.path.join(VERIF, "evidence")
+    d = os.environ.get("VERIF_EVIDENCE_DIR") or os.path.join(VERIF, "evidence")
     os.makedirs(d, exist_ok=True)
     try:
         import jsonschema
